@@ -136,6 +136,21 @@ def case_class(c):
 def known_finding(c, findings):
     """A race report is a known finding when both positions carry accesses to the finding's field, one
     in one of its unlocked reader functions and the other in one of its writer functions."""
+    if c.get("class") == "scenario":
+        # a crash of the stress process: matched by the C functions that were executing
+        if not c.get("panics") or c.get("timeout"):
+            return None
+        cgo = set(c.get("crash_cgo") or [])
+        for f in findings:
+            need = set(f.get("crash_cgo_all") or [])
+            if not need or not need <= cgo:
+                continue
+            if f.get("crash_kind_prefix") and not str(c.get("crash_kind", "")).startswith(f["crash_kind_prefix"]):
+                continue
+            if f.get("needs_reload_timeouts") and not c.get("scenario", {}).get("timeout_us"):
+                continue
+            return f
+        return None
     if c.get("class") != "race":
         return None
     ra, rb = at(c["a"]), at(c["b"])
